@@ -312,6 +312,62 @@ func scnDidReg(ctx *check.JobCtx) {
 		w.Deliver("did-payaddr", u1, map[string]interface{}{"c17.case": "key/takeover-of-linked-key-did"}, &didtypes.MsgUpdatePaymentAddress{Creator: u1.Addr.String(), AccountId: u1.AccountID(), Did: k0.Did})
 		w.EndBlock()
 	}
+	// deterministic prefix: a sid with four bound accounts; one rotation drops two accounts that are neighbours in
+	// the stored account list, the next one re-binds them and drops two that are not neighbours
+	{
+		owner := funded[2]
+		ts := now()
+		sidN := actors.NewSidDid(fmt.Sprintf("n%d", ctx.Job.Seed), ts)
+		p := actors.CosmosProof(owner, sidN.DID(), ts, actors.BindingMessage(sidN.DID(), ts))
+		if e := bind("create/valid", owner, owner, sidN, p, owner.AccountID(), true, sidN.Versions[0].Keys); e.OK {
+			sids = append(sids, sidN)
+			for _, f := range funded[3:6] {
+				ts := now()
+				p := actors.CosmosProof(f, sidN.DID(), ts, actors.BindingMessage(sidN.DID(), ts))
+				bind("add/valid/creator-bound", owner, f, sidN, p, f.AccountID(), true, sidN.Versions[0].Keys)
+			}
+			w.EndBlock()
+			for round, gap := range []int{1, 2} {
+				st := snapshotDid(w.C)
+				list := st.AccountList[sidN.DID()] // stored order
+				pay := "cosmos:" + chain.ChainID + ":" + st.PayAddr[sidN.DID()]
+				drop := map[string]bool{}
+				for i := 0; i+gap < len(list); i++ {
+					if st.AccountId[list[i]] != pay && st.AccountId[list[i+gap]] != pay {
+						drop[list[i]], drop[list[i+gap]] = true, true
+						break
+					}
+				}
+				var remove []string
+				var keep []*didtypes.AccountAuth
+				for _, ad := range list {
+					if drop[ad] {
+						remove = append(remove, ad)
+					} else {
+						keep = append(keep, &didtypes.AccountAuth{AccountDid: ad, AccountEncryptedSeed: "s4", SidEncryptedAccount: "a4"})
+					}
+				}
+				ts := now()
+				nv := actors.NewSidVersion(sidN.Name, 100+round, ts)
+				m := &didtypes.MsgUpdate{Creator: owner.Addr.String(), Did: sidN.DID(), NewDocId: nv.DocId, Keys: nv.Keys, Timestamp: ts, UpdateAccountAuth: keep, RemoveAccountDid: remove, PastSeed: fmt.Sprintf("seedn%d", round)}
+				cs := fmt.Sprintf("rotate/creator-bound=true/removes=%d/neighbours=%v", len(remove), gap == 1)
+				if e := w.Deliver("did-update", owner, map[string]interface{}{"c17.case": cs}, m); e.OK {
+					sidN.Versions = append(sidN.Versions, nv)
+				}
+				w.EndBlock()
+				// the dropped accounts bind again (fresh proofs), so that the next rotation has four accounts to choose from
+				st = snapshotDid(w.C)
+				for _, f := range funded[3:6] {
+					if st.DidOf[f.AccountID()] == "" {
+						ts := now()
+						p := actors.CosmosProof(f, sidN.DID(), ts, actors.BindingMessage(sidN.DID(), ts))
+						bind("add/valid/creator-bound", owner, f, sidN, p, f.AccountID(), true, sidN.Versions[len(sidN.Versions)-1].Keys)
+					}
+				}
+				w.EndBlock()
+			}
+		}
+	}
 	ops := int(ctx.ArgInt("ops", 120))
 	for i := 0; i < ops && !w.Halted(); i++ {
 		acct := funded[r.Intn(n)]
